@@ -22,10 +22,11 @@ LEVEL_TEXT = ('Decides from the source, for every node class at once: the parser
               'the same primitive with the same flags and constant arguments; rule decorators and parameters emitted equal what '
               'the model puts into RuleInfo; every model string reaches the emitted source only through repr/regexpp/safe_name, '
               'regexpp escapes every character the printer would alter (line-boundary characters, TAB), Optional settings are '
-              'emitted as None. Equality of results for concrete grammar x input pairs is not decided; naming via last_node vs '
-              'returned value is not decided.')
+              'emitted as None. Equality of results for concrete grammar x input pairs is not decided.')
 TECHNIQUE += '; operand correspondence (operand fields read from <Class>._parse vs operand stand-ins the interpreted generator handler hands to walk())'
 LEVEL_TEXT += ' Added clauses: literal operands and the generated configuration are read back from the emitted text; for every node class the generator walks the same operand fields the model parses (a based rule: base expression followed by its own).'
+TECHNIQUE += '; named-value agreement (naming context managers clear last_node before their block, every emitted wrapper is a frame or delegates to a primitive, leaf value = last_node, values returned from discarded frames)'
+LEVEL_TEXT += ' Added clause: a name binds the value of its own expression in generated code (not a stale last node, not the last element of a group); the residual `x:&e` difference is a known finding.'
 LEVEL_NOTE = ('Trusted: repr() escapes every non-printable character; str.splitlines() breaks at \\n \\r \\v \\f \\x1c \\x1d \\x1e \\x85 '
               '\\u2028 \\u2029; str.expandtabs() rewrites TAB.')
 EXPLANATION = ('Static analysis of /repo sources, TatSu not imported. walk_* methods of PythonParserGenerator and _parse methods '
@@ -840,5 +841,146 @@ def r8_operand_correspondence(a, tier):
     return rep
 
 
+def _after_yield_calls(fn):
+    """calls made after the (first) yield statement of a generator function, in source order (own statements only)"""
+    seen_yield = False
+    out = []
+    for n in ast.walk(fn.node):
+        pass
+    def visit(block):
+        nonlocal seen_yield
+        for st in block:
+            if isinstance(st, (ast.FunctionDef, ast.AsyncFunctionDef, ast.ClassDef)):
+                continue
+            has_yield = any(isinstance(x, (ast.Yield, ast.YieldFrom)) for x in ast.walk(st))
+            if has_yield and not isinstance(st, (ast.Try, ast.With, ast.If, ast.For, ast.While)):
+                seen_yield = True
+                continue
+            if isinstance(st, (ast.Try, ast.With, ast.If, ast.For, ast.While)):
+                for fld in ('body', 'handlers', 'orelse', 'finalbody'):
+                    sub = getattr(st, fld, None) or []
+                    for h in sub:
+                        if isinstance(h, ast.ExceptHandler):
+                            visit(h.body)
+                    visit([x for x in sub if isinstance(x, ast.stmt)])
+                continue
+            if seen_yield:
+                out.extend(x for x in ast.walk(st) if isinstance(x, ast.Call))
+    visit(fn.node.body)
+    return out
+
+
+def _before_yield_stmts(fn):
+    out = []
+    for st in fn.node.body:
+        if any(isinstance(x, (ast.Yield, ast.YieldFrom)) for x in ast.walk(st)):
+            break
+        out.append(st)
+    return out
+
+
+def r9_named_value(a, tier):
+    from ..rules.frames import pushing_functions
+    rep = RuleReport(
+        'C02.R9',
+        'a named element binds the value of ITS expression in both back-ends. The model binds what exp._parse returns; generated '
+        'code binds state.last_node after the with-block. Necessary for agreement: (A) every naming context manager (one that '
+        'calls state.nameset/nameadd after its yield) clears state.last_node before the block - otherwise an expression that adds '
+        'nothing (failed optional, lookahead, cut, void, end of text) binds the value of an EARLIER element; (B) every other '
+        'context manager the generator wraps around sub-expressions opens a state frame (closed by merge/extend, which makes the '
+        'whole block ONE last_node) or delegates to a primitive after the block - a wrapper that only yields leaves the last '
+        'ELEMENT of a group as the value; (C) a leaf primitive that returns a value leaves that value in last_node; (D) a model '
+        'class that returns the value seen inside a discarded frame (lookahead) has no counterpart in generated code',
+        floor=8,
+    )
+    b = B(a)
+    T = lambda: _la(b.tok())  # noqa: E731
+    PEG = 'tatsu.peg'
+    boxes = [b.box('Group', T()), b.box('Optional', T()), b.box('Closure', T()), b.box('PositiveClosure', T()), b.box('SkipGroup', T()),
+             b.box('Lookahead', T()), b.box('NegativeLookahead', T()), b.box('SkipTo', T()),
+             b.join('Join', T(), T()), b.join('PositiveJoin', T(), T()), b.join('Gather', T(), T()), b.join('PositiveGather', T(), T()),
+             Stub(f'{PEG}.deprecated.LeftJoin', exp=T(), sep=T()), Stub(f'{PEG}.deprecated.RightJoin', exp=T(), sep=T()),
+             Stub(Q['Named'], name='n', exp=T()), Stub(Q['NamedList'], name='n', exp=T()), Stub(Q['Override'], exp=T()), Stub(Q['OverrideList'], exp=T()),
+             b.choice(T(), T())]
+    wrappers: dict[str, set[str]] = {}
+    for node in boxes:
+        try:
+            lines = _emit(a, node)
+        except Unsupported:
+            # handler outside the interpreter (walk_Choice builds tables): the wrappers it names as `Ctx.<method>`
+            w_ = _find_walker(a, GEN, node._cls)
+            lines = [f'with ctx.{n_.attr}(' for n_ in ast.walk(w_.fn.node)
+                     if isinstance(n_, ast.Attribute) and isinstance(n_.value, ast.Name) and n_.value.id == 'Ctx']
+        for ln in lines:
+            for m in re.finditer(r'with ctx\.(\w+)\(', ln):
+                wrappers.setdefault(m.group(1), set()).add(node._cls.split('.')[-1])
+    pushers = {f.qualname for f in pushing_functions(a)}
+    for w, users in sorted(wrappers.items()):
+        fn = a.ct.lookup(CTX, w)
+        if fn is None:
+            rep.fail(CTX, f'wrapper-unknown:{w}', f'the generator emits `with ctx.{w}()` but ParseContext has no such method', None)
+            continue
+        after = _after_yield_calls(fn)
+        binds = [c for c in after if isinstance(c.func, ast.Attribute) and c.func.attr in ('nameset', 'nameadd') and 'state' in norm(c.func.value)]
+        if binds:
+            reset = any(isinstance(st, ast.Assign) and any(isinstance(t, ast.Attribute) and t.attr == 'last_node' and 'state' in norm(t.value) for t in st.targets)
+                        and isinstance(st.value, ast.Constant) and st.value.value is None for st in _before_yield_stmts(fn))
+            rep.add({'wrapper': w, 'emitted_for': sorted(users), 'kind': 'naming', 'clears_last_node_before_block': reset})
+            if not reset:
+                rep.fail(fn.qualname, f'stale-value:{w}', f'ParseContext.{w} binds state.last_node after the block without clearing it before: '
+                         f'`x:[e]` with e not matching (and x:&e, x:!e, x:~, x:$ ...) binds the value of the element BEFORE the named one, the '
+                         f'model binds None', fn.loc)
+            continue
+        is_frame = fn.qualname in pushers
+        delegates = [c for c in after if isinstance(c.func, ast.Attribute) and (norm(c.func.value) == 'self' or isinstance(c.func.value, ast.Name))]
+        kind = 'frame' if is_frame else ('delegating' if delegates else 'plain')
+        rep.add({'wrapper': w, 'emitted_for': sorted(users), 'kind': kind, 'delegates_to': sorted({c.func.attr for c in delegates})})
+        if kind == 'plain':
+            rep.fail(fn.qualname, f'wrapper-without-frame:{w}', f'ParseContext.{w} (emitted for {sorted(users)}) neither opens a state frame nor '
+                     f'calls a primitive after the block: after `with ctx.{w}(): a b` state.last_node is the value of b, the model\'s value of '
+                     f'the construct is [a, b]; a name around it binds different values in the two back-ends', fn.loc)
+    # (C) leaf primitives: returned value == last_node
+    from ..modelinterp import Recorder as _Rec
+    for pname in ('void', 'empty', 'dot', 'token', 'pattern'):
+        fn = a.ct.lookup(CTX, pname)
+        if fn is None:
+            continue
+        state = _Rec('state')
+        cursor = _Rec('cursor')
+
+        class _A(dict):
+            def get(self, k, d=None):
+                return 7
+        cursor.results = _A()
+        state.attrs['cursor'] = cursor
+        me = Stub(CTX, state=state, cursor=cursor, tracer=_Rec('tracer'), next_token=Hook(lambda *x, **k: None))
+        it = ModelInterp(a, {'regexpp': Hook(lambda x: x), 'closedlist': Hook(lambda x: ('closed', tuple(x)))})
+        try:
+            ret = it.call_bound(Bound(me, fn), ['OPERAND'] * (len(fn.node.args.args) - 1), {})
+        except Unsupported as e:
+            raise AnalysisError(f'C02.R9: cannot interpret ParseContext.{pname}: {e}') from e
+        last = [t[1][0] for t in state.trace if t[0] in ('append', 'extend', 'set:last_node') and t[1]]
+        ok = (ret is None and not last) or (bool(last) and last[-1] == ret)
+        rep.add({'primitive': pname, 'returns': repr(ret), 'last_node_after': repr(last[-1]) if last else 'unchanged', 'agree': ok})
+        if not ok:
+            rep.fail(fn.qualname, f'value-not-in-last-node:{pname}', f'ParseContext.{pname} returns {ret!r} (what the model binds for `x:{pname}`) but leaves '
+                     f'state.last_node {"unchanged" if not last else repr(last[-1])} (what generated code binds)', fn.loc)
+    # (D) model classes that return a value from inside a discarded frame
+    for cname in ('Lookahead', 'NegativeLookahead'):
+        c = f'{PEG}.syntax.{cname}'
+        fn = a.ct.lookup(c, '_parse') if c in a.p.classes else None
+        if fn is None:
+            continue
+        inside = [r for w_ in ast.walk(fn.node) if isinstance(w_, ast.With)
+                  and any(isinstance(i.context_expr, ast.Call) and isinstance(i.context_expr.func, ast.Attribute) and i.context_expr.func.attr in ('if_', '_if')
+                          for i in w_.items)
+                  for r in ast.walk(w_) if isinstance(r, ast.Return) and r.value is not None]
+        rep.add({'model_class': cname, 'returns_value_from_discarded_frame': bool(inside)})
+        if inside:
+            rep.fail(fn.qualname, 'named-lookahead-value', f'{cname}._parse returns the value its expression produced inside the lookahead frame: '
+                     f'`x:&e` binds the value of e in the model and None in generated code (the frame is undone before the name is bound)', fn.loc)
+    return rep
+
+
 RULES = [r1_exhaustive, r2_primitives, r3_rule_transfer, r4_emission, r5_context_free_emission, r6_leaf_literals, r7_generated_configuration,
-         r8_operand_correspondence]
+         r8_operand_correspondence, r9_named_value]
